@@ -500,10 +500,10 @@ func c14Retry(c *Ctx) {
 				return nonNilOnTrue, !nonNilOnTrue
 			}
 		}
-		if cm.op == token.GEQ && hasOrigin(cm.x, func(o string) bool { return o == "call:(*desync.RemoteHTTPBase).IssueHttpRequest#0" }) {
-			if k, ok := cm.y.(*ssa.Const); ok && k.Int64() >= 500 {
-				return truth, !truth
-			}
+		// status >= 500 in any spelling: a comparison over the status alone whose upper part starts at >= 500
+		if p, ok := partitionOf(iff.Cond); ok && len(p.atoms) == 1 && p.atoms["call:(*desync.RemoteHTTPBase).IssueHttpRequest#0"] == 1 && p.t >= 499 && p.t < 599 {
+			onTrue := p.upper == truth
+			return onTrue, !onTrue
 		}
 		return false, false
 	})
